@@ -36,6 +36,7 @@ class Unit:
         self.lines = []
         self.is_unit = False
         self.tier = 'quick'
+        self.lets = {}
 
 
 def load_units():
@@ -61,9 +62,12 @@ def load_units():
             if s.startswith('//@tier '):
                 u.tier = s.split()[1]
                 continue
+            if s.startswith('//@let '):
+                k, v = s[len('//@let '):].split('=', 1)
+                u.lets[k.strip()] = v.strip()
+                continue
             if s.startswith('//@use '):
                 u.uses += s.split()[1:]
-                continue
             body.append(ln)
         u.lines = body
         units[name] = u
@@ -132,6 +136,7 @@ class FnSpec:
         self.body_start = ''
         self.body_end = ''
         self.keep_sig = False
+        self.broadcast = None
 
 
 def parse_fn_block(header, lines):
@@ -177,6 +182,9 @@ def parse_fn_block(header, lines):
             if kw == 'expect_sig':
                 flush()
                 fs.expect_sig = arg
+            elif kw == 'broadcast':
+                flush()
+                fs.broadcast = arg.strip()
             elif kw == 'keep_sig':
                 flush()
                 fs.keep_sig = True
@@ -227,7 +235,11 @@ def apply_rules(body, fs, log, where):
         else:
             todo = [(rx, repl)]
         total = 0
-        for (r, rp) in todo:
+        for ent in todo:
+            if callable(ent):
+                r, rp = ent, None
+            else:
+                r, rp = ent
             if callable(r):
                 body, k = r(body)
             else:
@@ -276,13 +288,15 @@ def gen_fn(fs, cfg, log, vac=False):
     # ghost text may itself not contain loops; count only
     if want and want[-1] > len(loops):
         raise ExtractError('%s: loop #%d not found (%d loops) (lost anchor)' % (where, want[-1], len(loops)))
-    for k in sorted(fs.loops, reverse=True):
+    for k in range(len(loops), 0, -1):
         kw, ob = loops[k - 1]
-        ann = fs.loops[k]
-        ins = '\n' + ann + '\n'
+        ann = fs.loops.get(k, '')
+        ins = ('\n' + ann + '\n') if ann else ''
         after = ''
+        if fs.broadcast:
+            after = ' broadcast use %s;\n' % fs.broadcast
         if vac:
-            after = ' proof { assert(false); } // @VAC %s loop%d\n' % (where, k)
+            after += ' proof { assert(false); } // @VAC %s loop%d\n' % (where, k)
         body = body[:ob] + ins + '{' + after + body[ob + 1:]
     if len(loops) != len(fs.loops) and not fs.keep_sig:
         log.append(dict(where=where, note='loops in body: %d, annotated: %d' % (len(loops), len(fs.loops))))
@@ -290,6 +304,8 @@ def gen_fn(fs, cfg, log, vac=False):
     inner = body.strip()
     assert inner[0] == '{' and inner[-1] == '}'
     start = fs.body_start
+    if fs.broadcast:
+        start = 'broadcast use %s;\n' % fs.broadcast + start
     if vac:
         start = 'proof { assert(false); } // @VAC %s entry\n' % where + start
     inner = '{\n' + start + '\n' + inner[1:-1] + '\n' + fs.body_end + '\n}'
@@ -325,6 +341,23 @@ def gen_struct(file, header_re, sub_lines, log):
     return '// @ITEM %s src=%s:%d\n' % (header_re, file, _lineno(src, a)) + item + '\n'
 
 
+def check_fields(file, header_re, names):
+    """The hand-written model struct must have exactly the fields of the real struct."""
+    src = _read_repo(file)
+    a, ob, e = rustlex.find_item(src, header_re)
+    item = normalise_item(src[a:e])
+    body = item[item.index('{') + 1:item.rindex('}')]
+    got, depth = [], 0
+    for part in re.split(r'\n', body):
+        s = part.strip()
+        m = re.match(r'(?:pub\s+)?([a-z_][A-Za-z0-9_]*)\s*:', s)
+        if m and depth == 0:
+            got.append(m.group(1))
+        depth += part.count('<') - part.count('>') + part.count('(') - part.count(')')
+    if sorted(got) != sorted(names):
+        raise ExtractError('%s: struct fields changed: real=%s model=%s' % (file, got, names))
+
+
 def expand(units, name, cfg, log, seen, vac):
     """Expand unit `name` body (with its uses first)."""
     if name in seen:
@@ -334,9 +367,8 @@ def expand(units, name, cfg, log, seen, vac):
         raise ExtractError('unknown lib/unit: ' + name)
     u = units[name]
     out = []
-    for dep in u.uses:
-        out.append(expand(units, dep, cfg, log, seen, vac))
-    out.append('// @ORIGIN %s props=%s' % (name, ','.join(u.props)))
+    origin = '// @ORIGIN %s props=%s' % (name, ','.join(u.props))
+    out.append(origin)
     lines = u.lines
     i = 0
     active = [True]
@@ -357,6 +389,19 @@ def expand(units, name, cfg, log, seen, vac):
             continue
         if s == '//@endif':
             active.pop()
+            i += 1
+            continue
+        if s.startswith('//@use '):
+            if active[-1]:
+                for dep in s.split()[1:]:
+                    out.append(expand(units, dep, cfg, log, seen, vac))
+                out.append(origin)
+            i += 1
+            continue
+        if s.startswith('//@fields '):
+            if active[-1]:
+                file, rx, names = [p.strip() for p in s[len('//@fields '):].split('::')]
+                check_fields(file, rx, names.split())
             i += 1
             continue
         if s.startswith('//@fn ') or s.startswith('//@struct '):
@@ -393,6 +438,24 @@ verus! {
 
 def generate(units, name, cfg, vac=False):
     log = []
+    units = dict(units)
+    lets = units[name].lets
+    if lets:
+        # ${NAME} substitution applies to every lib pulled in by this unit
+        import copy
+        def sub(t):
+            for k, v in lets.items():
+                t = t.replace('${%s}' % k, v)
+            return t
+        nu = {}
+        for k, u in units.items():
+            c = copy.copy(u)
+            c.lines = [sub(l) for l in u.lines]
+            nu[k] = c
+        units = nu
     body = expand(units, name, cfg, log, set(), vac)
+    if '${' in body:
+        m = re.search(r'\$\{\w+\}', body)
+        raise ExtractError('unsubstituted template variable %s in unit %s' % (m.group(0) if m else '?', name))
     text = PRELUDE % (name, cfg, ' (vacuity twin)' if vac else '') + body + '\n} // verus!\nfn main() {}\n'
     return text, log
